@@ -36,16 +36,17 @@ Definition ok_pipe (p : N) (x : option kpipe) (e : list kobs) : Prop :=
   | None => e = []
   | Some x =>
     kp x = p /\
-    if kadded x then (if ktclosed x then e = w_gone p else e = w_live p)
-    else ktclosed x = true /\ (e = w_attach_closed p \/ e = w_refused p)
+    if kadded x then (if ktclosed x then e = w_gone p /\ klisted x = false /\ kid x = false
+                      else e = w_live p /\ klisted x = true /\ kid x = true)
+    else ktclosed x = true /\ klisted x = false /\ kid x = false /\ (e = w_attach_closed p \/ e = w_refused p)
   end.
 
 Lemma ok_pipe_oracle p x e : ok_pipe p x e -> e = [] \/ c13_events_ok e = true.
 Proof.
   destruct (words_ok p) as (A & B & C & D).
   destruct x as [x|]; cbn; [|auto]. intros [_ H]. right.
-  destruct (kadded x); [destruct (ktclosed x); subst; assumption|].
-  destruct H as [_ [->| ->]]; assumption.
+  destruct (kadded x); [destruct (ktclosed x); destruct H as [-> _]; assumption|].
+  destruct H as (_ & _ & _ & [->| ->]); assumption.
 Qed.
 
 (* ---- finding and replacing pipe records ---- *)
@@ -121,7 +122,7 @@ Proof.
   { unfold s1. rewrite E_put_p, E_emit. cbn [about]. rewrite N.eqb_refl. reflexivity. }
   destruct (kadded x) eqn:Ea.
   - (* attached: remPipe *)
-    rewrite Etc in Hok. subst e.
+    rewrite Etc in Hok. destruct Hok as (-> & _ & _).
     set (x2 := {| kp := p; kowner := kowner x; kadded := true; kclosing := true; klisted := false; kid := false; ktclosed := true |}).
     set (s2 := kemit (put_p (kemit s1 (PRemove p)) x2) (HDetached p)).
     assert (G2 : get_p s2 p = Some x2).
@@ -131,9 +132,9 @@ Proof.
     { unfold s2. rewrite E_emit. cbn [about]. rewrite N.eqb_refl. rewrite E_put_p, E_emit. cbn [about]. rewrite N.eqb_refl.
       rewrite E1. rewrite <- !app_assoc. reflexivity. }
     destruct (kowner x) as [l|d].
-    + exists x2. split; [exact G2|]. split; [|exact E2]. cbn. split; reflexivity.
+    + exists x2. split; [exact G2|]. split; [|exact E2]. cbn. repeat split; reflexivity.
     + destruct (pct_pipes s2 d p) as [B1 B2]. exists x2. rewrite B1, B2. split; [exact G2|]. split; [|exact E2].
-      cbn. split; reflexivity.
+      cbn. repeat split; reflexivity.
   - (* never attached: cannot happen at a quiescent point (such pipes are already closed) *)
     destruct Hok as [Hc _]. congruence.
 Qed.
@@ -221,7 +222,7 @@ Proof.
     rewrite G3. cbn [kclosing ktclosed].
     eexists _, (w_attach_closed p). split; [apply (get_put_same (pipe_close s2 p)); eexists; exact G3|].
     split; [|rewrite E_put_p, E3, E2, <- app_assoc; reflexivity].
-    cbn. auto.
+    cbn. repeat split; auto.
   - rewrite G2. cbn [new_pipe kclosing].
     destruct (krefuse s2 || ksclosed s2).
     + (* refused by the protocol *)
@@ -231,7 +232,7 @@ Proof.
       assert (E4 : E p s4 = E p s ++ [HAttaching p; PAdd p false]).
       { unfold s4. rewrite E_put_p, E_emit. cbn [about]. rewrite N.eqb_refl, E2, <- app_assoc. reflexivity. }
       destruct (pipe_close_unadded s4 p x4 G4 eq_refl eq_refl) as [G5 E5].
-      eexists _, (w_refused p). split; [exact G5|]. split; [cbn; auto|].
+      eexists _, (w_refused p). split; [exact G5|]. split; [cbn; repeat split; auto|].
       rewrite E5, E4, <- app_assoc. reflexivity.
     + (* accepted *)
       set (x4 := {| kp := p; kowner := o; kadded := true; kclosing := false; klisted := true; kid := true; ktclosed := false |}).
@@ -249,12 +250,12 @@ Proof.
       { unfold s6. rewrite E_emit. cbn [about]. rewrite N.eqb_refl, E5, E4, <- app_assoc. reflexivity. }
       destruct (kpolicy s6 =? 2).
       * (* the hook closes it during Attached *)
-        assert (Hok : ok_pipe p (Some x4) (w_live p)) by (cbn; auto).
+        assert (Hok : ok_pipe p (Some x4) (w_live p)) by (cbn; repeat split; auto).
         destruct (pipe_close_same s6 p x4 (w_live p) G6 Hok (or_intror I)) as (x7 & G7 & O7 & E7).
         cbn [x4 ktclosed kadded] in O7, E7.
         exists x7, (w_live p ++ [TClose p; PRemove p; HDetached p]). split; [exact G7|]. split; [exact O7|].
         rewrite E7, E6, <- app_assoc. reflexivity.
-      * exists x4, (w_live p). split; [exact G6|]. split; [|exact E6]. cbn. auto.
+      * exists x4, (w_live p). split; [exact G6|]. split; [|exact E6]. cbn. repeat split; auto.
 Qed.
 
 (* ---- the relation kept by every primitive of a step ---- *)
@@ -434,8 +435,8 @@ Proof.
   change (ok_pipe p (get_p (kfinal kinit h) p) e) in H.
   destruct (get_p (kfinal kinit h) p) as [x|]; cbn in H; [|auto].
   destruct H as [_ H]. destruct (kadded x).
-  - destruct (ktclosed x); auto.
-  - destruct H as [_ [H|H]]; auto.
+  - destruct (ktclosed x); destruct H as [H _]; auto.
+  - destruct H as (_ & _ & _ & [H|H]); auto.
 Qed.
 
 Lemma in_pipes_of_evs l p : In p (pipes_of l) -> evs p l <> [].
